@@ -1,5 +1,198 @@
-/- Line-protocol driver for the C16 model (stub until the model exists). -/
-import ForML.Model.Sexp
-open ForML
+/- Line-protocol driver for the C16 model (ForML.Model.Serving).
 
-def main : IO Unit := driverLoop (fun _ => .atom "no-model")
+   cfg      ::= (cfg (caller*) (app*) ((app inst)*) workers locked)      caller ::= (app badEncoding kind payload)
+   outcome  ::= (value inst payload) | (error kind)
+   (replay cfg (step*))          → (ok stuck (answer*)) | (disabled k)       step ::= (arrive c) | (desc c) | …
+   (random cfg seed fuel)        → (ok stuck nsteps (answer*))
+   (validate cfg (event*))       → (ok stuck (answer*)) | (reject reason k …)
+        event ::= (arrive c) | (answer c outcome)    — the observable projection of a schedule
+-/
+import ForML.Model.Sexp
+import ForML.Model.Serving
+open ForML ForML.Serving
+
+def bool? : Sexp → Option Bool
+  | .atom "true" => some true
+  | .atom "false" => some false
+  | _ => none
+
+def kind? : Sexp → Option EntryKind
+  | .atom "ok" => some .ok
+  | .atom "missingColumn" => some .missingColumn
+  | .atom "fatal" => some .fatal
+  | _ => none
+
+def err? : Sexp → Option Err
+  | .atom "missingApp" => some .missingApp
+  | .atom "unsupported" => some .unsupported
+  | .atom "missingFeatures" => some .missingFeatures
+  | .atom "fatal" => some .fatal
+  | .atom "notRunning" => some .notRunning
+  | _ => none
+
+def errName : Err → String
+  | .missingApp => "missingApp" | .unsupported => "unsupported" | .missingFeatures => "missingFeatures"
+  | .fatal => "fatal" | .notRunning => "notRunning"
+
+def outcome? : Sexp → Option Outcome
+  | .list [.atom "value", i, p] => do pure (.value (← i.nat?) (← p.nat?))
+  | .list [.atom "error", e] => do pure (.error (← err? e))
+  | _ => none
+
+def ofOutcome : Outcome → Sexp
+  | .value i p => .list [.atom "value", Sexp.ofNat i, Sexp.ofNat p]
+  | .error e => .list [.atom "error", .atom (errName e)]
+
+def caller? : Sexp → Option CallerSpec
+  | .list [a, b, k, p] => do pure ⟨← a.nat?, ← bool? b, ⟨← kind? k, ← p.nat?⟩⟩
+  | _ => none
+
+def pair? : Sexp → Option (Nat × Nat)
+  | .list [a, b] => do pure (← a.nat?, ← b.nat?)
+  | _ => none
+
+/-- `select` must be given for every inventory application: no default instance is invented -/
+def cfg? : Sexp → Option Config
+  | .list [.atom "cfg", .list cs, inv, .list sel, w, l] => do
+    let callers ← cs.mapM caller?
+    let inventory ← inv.natList?
+    let table ← sel.mapM pair?
+    let workers ← w.nat?
+    let locked ← bool? l
+    if inventory.all (fun a => (table.lookup a).isSome) then
+      pure { callers, inventory, select := fun a => (table.lookup a).getD 0, workers, locked }
+    else none
+  | _ => none
+
+def step? : Sexp → Option Step
+  | .list [.atom "arrive", c] => c.nat?.map .arrive
+  | .list [.atom "desc", c] => c.nat?.map .desc
+  | .list [.atom "decodeFail", c] => c.nat?.map .decodeFail
+  | .list [.atom "submit", c] => c.nat?.map .submit
+  | .list [.atom "take", i, w] => do pure (.take (← i.nat?) (← w.nat?))
+  | .list [.atom "finish", i, w] => do pure (.finish (← i.nat?) (← w.nat?))
+  | .list [.atom "deliver", i] => i.nat?.map .deliver
+  | _ => none
+
+inductive Event where
+  | arrive (c : Nat)
+  | answer (c : Nat) (o : Outcome)
+
+def event? : Sexp → Option Event
+  | .list [.atom "arrive", c] => c.nat?.map .arrive
+  | .list [.atom "answer", c, o] => do pure (.answer (← c.nat?) (← outcome? o))
+  | _ => none
+
+def ofAnswers (as : List (Nat × Outcome)) : Sexp :=
+  .list (as.reverse.map (fun a => .list [Sexp.ofNat a.1, ofOutcome a.2]))
+
+/-- run a schedule, reporting the index of the first step that is not enabled -/
+def replay (cfg : Config) : State → List Step → Nat → Except Nat State
+  | s, [], _ => .ok s
+  | s, a :: as, k => match step cfg s a with
+    | none => .error k
+    | some s' => replay cfg s' as (k + 1)
+
+def isCritical : Phase → Bool
+  | .d1 | .d2 _ | .d3 _ | .d4 _ => true
+  | _ => false
+
+/-- the internal steps that bring caller `c` to its answer, taken greedily (unobservable steps may be delayed
+up to the answer they precede).  `wantMissing`: the observed answer is "application not found" for a known
+application — only the unsynchronised descriptor interleaving (D17) can produce it, with a helper thread. -/
+def drive (cfg : Config) (c : Nat) (wantMissing : Bool) : Nat → State → Option State
+  | 0, _ => none
+  | fuel + 1, s =>
+    match s.phase c with
+    | .fresh => none
+    | .done => some s
+    | .d0 =>
+      if wantMissing then
+        -- c: check; helper: check, list, diff, update; c: list, diff, update, test
+        let helper := (List.range cfg.callers.length).find? (fun h => h != c && s.phase h == .d0
+          && !((spec cfg h).app ∈ s.cache))
+        match helper with
+        | none => none
+        | some h =>
+          match run cfg s [.desc c, .desc h, .desc h, .desc h, .desc h, .desc c, .desc c, .desc c, .desc c] with
+          | none => none
+          | some s' => drive cfg c false fuel s'
+      else
+        match step cfg s (.desc c) with
+        | none => none
+        | some s' => drive cfg c false fuel s'
+    | .d1 | .d2 _ | .d3 _ | .d4 _ =>
+      match step cfg s (.desc c) with
+      | none => none
+      | some s' => drive cfg c false fuel s'
+    | .resolved =>
+      match step cfg s (if (spec cfg c).badEncoding then .decodeFail c else .submit c) with
+      | none => none
+      | some s' => drive cfg c false fuel s'
+    | .submitted i _ =>
+      let e := s.execs i
+      let a : Option Step :=
+        match e.resultQ, e.held, e.taskQ with
+        | _ :: _, _, _ => some (.deliver i)
+        | [], (w, _) :: _, _ => some (.finish i w)
+        | [], [], _ :: _ => some (.take i 0)
+        | [], [], [] => none
+      match a with
+      | none => none
+      | some a => match step cfg s a with
+        | none => none
+        | some s' => drive cfg c false fuel s'
+
+/-- is the observed event sequence the projection of a schedule?  Returns the final state or the index and
+reason of the first event no schedule can produce. -/
+def validate (cfg : Config) : State → List Nat → List Event → Nat → Except Sexp State
+  | s, _, [], _ => .ok s
+  | s, seen, .arrive c :: es, k =>
+    match step cfg s (.arrive c) with
+    | none => .error (.list [.atom "reject", .atom "arrive-not-enabled", Sexp.ofNat k])
+    | some s' => validate cfg s' seen es (k + 1)
+  | s, seen, .answer c o :: es, k =>
+    if seen.contains c then .error (.list [.atom "reject", .atom "answered-twice", Sexp.ofNat k])
+    else
+      let fuel := 16 * (cfg.callers.length + 4)
+      let spurious (v : Nat) (ov : Outcome) (st : State) : Bool :=
+        ov == .error .missingApp && decide ((spec cfg v).app ∈ cfg.inventory) && st.phase v == .d0
+      -- callers observed later with a spurious "not found" lost the descriptor race now (their answer may be
+      -- observed any time later): run their interleaving before anybody fills the cache
+      let s := es.foldl (fun st e => match e with
+        | .answer v ov => if v != c && spurious v ov st then (drive cfg v true fuel st).getD st else st
+        | _ => st) s
+      let wantMissing := spurious c o s
+      match drive cfg c wantMissing fuel s with
+      | none => .error (.list [.atom "reject", .atom "no-schedule-answers-caller", Sexp.ofNat k])
+      | some s' =>
+        match s'.answers.lookup c with
+        | none => .error (.list [.atom "reject", .atom "not-answered", Sexp.ofNat k])
+        | some m =>
+          if m == o then validate cfg s' (c :: seen) es (k + 1)
+          else .error (.list [.atom "reject", .atom "outcome-differs", Sexp.ofNat k, ofOutcome m])
+
+def stepC16 : Sexp → Sexp
+  | .list [.atom "replay", c, .list steps] =>
+    match cfg? c, steps.mapM step? with
+    | some cfg, some sched =>
+      match replay cfg init sched 0 with
+      | .error k => .list [.atom "disabled", Sexp.ofNat k]
+      | .ok s => .list [.atom "ok", Sexp.ofBool (stuck cfg s), ofAnswers s.answers]
+    | _, _ => .atom "bad-op"
+  | .list [.atom "random", c, seed, fuel] =>
+    match cfg? c, seed.nat?, fuel.nat? with
+    | some cfg, some seed, some fuel =>
+      let (s, sched) := randomRun cfg (instsOf cfg) fuel seed init []
+      .list [.atom "ok", Sexp.ofBool (stuck cfg s), Sexp.ofNat sched.length, ofAnswers s.answers]
+    | _, _, _ => .atom "bad-op"
+  | .list [.atom "validate", c, .list events] =>
+    match cfg? c, events.mapM event? with
+    | some cfg, some evs =>
+      match validate cfg init [] evs 0 with
+      | .error r => r
+      | .ok s => .list [.atom "ok", Sexp.ofBool (stuck cfg s), ofAnswers s.answers]
+    | _, _ => .atom "bad-op"
+  | _ => .atom "bad-op"
+
+def main : IO Unit := driverLoop stepC16
